@@ -128,12 +128,12 @@ Section OvlOk.
     unfold read_path. destruct p as [|x p']; [constructor; apply top_layer_ok|]. set (p := x :: p').
     eapply calls_okQ_bind_res with (Q := fun _ => True); try (intros; exact I).
     - eapply calls_okQ_weaken; [|apply calls_ok_okQ, vpe_top]. intros [] _; exact I.
-    - intros wo _. destruct wo; [constructor; exact I|].
-      eapply calls_okQ_bind_res; try (intros; exact I); [apply first_layer_ok, layers_ok|].
-      intros [lp|] Hlp; [constructor; exact Hlp|].
+    - intros up _. destruct up; [constructor; apply top_layer_ok|].
       eapply calls_okQ_bind_res with (Q := fun _ => True); try (intros; exact I).
       + eapply calls_okQ_weaken; [|apply calls_ok_okQ, vpe_top]. intros [] _; exact I.
-      + intros ex _. destruct ex; constructor; [apply top_layer_ok|exact I].
+      + intros wo _. destruct wo; [constructor; exact I|].
+        eapply calls_okQ_bind_res; try (intros; exact I); [apply first_layer_ok, lower_ok|].
+        intros [lp|] Hlp; constructor; [exact Hlp|exact I].
   Qed.
 
   Lemma with_read_path {T} p (f : vfs * path -> bprog (res T)) :
@@ -147,7 +147,7 @@ Section OvlOk.
 
   Lemma ovl_exists_ok p : calls_ok ok (ovl_exists top lower p).
   Proof.
-    unfold ovl_exists. apply calls_ok_bind_res; [apply vpe_top|]. intros wo. destruct wo; [constructor|].
+    unfold ovl_exists.
     eapply calls_okQ_ok with (Q := fun _ => True).
     eapply calls_okQ_bind; [apply read_path_ok|].
     intros [lp|e|] Hlp; [|destruct (e_kind e); constructor; exact I|constructor; exact I].
